@@ -25,7 +25,11 @@ def isSp (c : Nat) : Bool := c == 32
 /-- ASCII lower-casing; `strings.EqualFold` restricted to ASCII (table ids and id bytes are ASCII) -/
 def lowerC (c : Nat) : Nat := if 65 ≤ c ∧ c ≤ 90 then c + 32 else c
 def lower (s : Bytes) : Bytes := s.map lowerC
-def foldEq (a b : Bytes) : Bool := lower a == lower b
+/-- `strings.EqualFold` on ASCII: byte-wise, stops at the first difference -/
+def foldEq : Bytes → Bytes → Bool
+  | [], [] => true
+  | a :: as, b :: bs => Nat.beq (lowerC a) (lowerC b) && foldEq as bs
+  | _, _ => false
 
 /-- `inLicenseList`: first entry equal up to ASCII case; returns the table's spelling -/
 def lookup (tbl : List Bytes) (w : Bytes) : Option Bytes := tbl.find? (fun l => foldEq l w)
